@@ -115,6 +115,38 @@ def run(ctx):
         if highnames:
             for c_ in grp:
                 c_.enc = "latin-1"
+        if i % 7 == 6 and not longnames and not highnames:
+            # the same records, in every order, as Clustal / MSF input files (rows are assigned to sequences block by block there), with names of which
+            # one is a proper prefix of another (s1 / s10 / s1x): distinct names all the same
+            import random as _random
+            from props import c04
+            recs = [(n_, q_) for n_, q_ in recs if q_][:rng.randint(3, 14)]
+            if len(recs) < 3:
+                recs = [("u%d" % k, gen.rand_seq(rng, gen.AA, 30)) for k in range(4)]
+                t = 3
+            perms = [list(recs), list(reversed(recs)), recs[1:] + recs[:1]]
+            for _ in range(3):
+                p_ = list(recs); rng.shuffle(p_); perms.append(p_)
+            base_ = "".join(rng.choice("abcdefgs") for _ in range(rng.randint(1, 4)))
+            pref = [base_ + "1", base_ + "10", base_ + "1x", base_ + "100"][:min(4, len(recs))]
+            others = ["%s_%d" % (rng.choice(["q", "r", base_]), k) for k in range(len(recs) - len(pref))]
+            newn = pref + others
+            rng.shuffle(newn)
+            ren = dict((old, new) for (old, _), new in zip(recs, newn))
+            render = c04.render_clustal if (i // 7) % 3 != 2 else c04.render_msf
+            inv = dict((new, old) for old, new in ren.items())
+            for first in pref[:3]:
+                rest = [r_ for r_ in recs if r_[0] != inv[first]]
+                rng.shuffle(rest)
+                perms.append([r_ for r_ in recs if r_[0] == inv[first]] + rest)      # the shorter / the longer of the prefix-related names first
+            grp = []
+            for p_ in perms:
+                p2 = [(ren[n_], q_) for n_, q_ in p_]
+                rows_ = c04.gap_rows(rng, p2, rng.choice([0.0, 0.05, 0.3]))
+                c_ = Case(p2, t, threads=th, fmt="fasta", evlog=True, tag="input as %s" % render.__name__)
+                c_.intext = render(_random.Random(rng.getrandbits(30)), rows_)
+                grp.append(c_)
+            ctx.count("block_format_inputs_with_prefix_names")
         if i % 7 == 5 and not longnames:
             # more than 50 ragged records of which a few carry stray gap characters: whatever kalign concludes about "is this input aligned?" must
             # not depend on WHERE in the file those records stand (first, last, shuffled)
